@@ -23,6 +23,7 @@ def run(ck, prog, ctx):
     ck.rule("SELECT", "direction of a reduction (DESIGN 3.10)")
     ck.rule("DISPATCH", "enum arms not cross-wired (DESIGN 3.11)")
     pv = Prov(prog)
+    pvn = Prov(prog, inline=False)
     pv_sel = Prov(prog, bind_closures=False, inline=False)
     ai = absint.Interp(prog)
 
@@ -226,6 +227,47 @@ def run(ck, prog, ctx):
             p1 = params_of(pv.of_operand(gs, t.args[1]), gs.id)
             ok = p0 == {2} and p1 == {3}
             ck.ob("ROLE", "matrix/new", ok, "Matrix::new(rows<-%s, cols<-%s) %s" % (sorted(gs.local_name(p) for p in p0), sorted(gs.local_name(p) for p in p1), "= (|a|, |b|)" if ok else "is not (|a|, |b|)"), where=gs.where(t.line))
+        # the data handed to Matrix::new must hold rows * cols values (Matrix does not check): a fixed-size LOCAL array passed whole has a constant
+        # length, whatever |a| * |b| is - the column iterator, which walks to the end of the slice, then reads the padding
+        for bi, t in news:
+            if len(t.args) < 3 or t.args[2].place is None:
+                continue
+            work_, seen_, whole = [t.args[2].place.local], set(), []
+            while work_:
+                l_ = work_.pop()
+                if l_ in seen_:
+                    continue
+                seen_.add(l_)
+                for k_, p_, d_ in pvn.defs(gs).get(l_, []):
+                    if k_ != "assign":
+                        continue
+                    rv_ = d_.rv
+                    if rv_["k"] in ("use", "cast") and rv_["op"].place is not None:
+                        src_ = rv_["op"].place
+                        if rv_["k"] == "cast" and "Unsize" in (rv_.get("kind") or ""):
+                            # reference to a whole local array?
+                            cur_, hops_ = src_.local, 0
+                            while cur_ is not None and hops_ < 6:
+                                hops_ += 1
+                                nxt_ = None
+                                for k2, p2, d2 in pvn.defs(gs).get(cur_, []):
+                                    if k2 == "assign" and d2.rv["k"] == "ref" and not [e for e in d2.rv["place"].fields() if e != "*"]:
+                                        al_ = d2.rv["place"].local
+                                        m_ = re.match(r"^\[.*; (\d+)\]$", gs.locals[al_]["s"])
+                                        if m_ and int(m_.group(1)) > 0 and al_ in gs.debug:
+                                            whole.append((gs.local_name(al_), int(m_.group(1)), d_.line))
+                                        else:
+                                            nxt_ = al_
+                                    elif k2 == "assign" and d2.rv["k"] == "use" and d2.rv["op"].place is not None and not [e for e in d2.rv["op"].place.fields() if e != "*"]:
+                                        nxt_ = d2.rv["op"].place.local
+                                cur_ = nxt_
+                        if not [e for e in src_.fields() if e != "*"]:
+                            work_.append(src_.local)
+                    elif rv_["k"] == "ref" and not [e for e in rv_["place"].fields() if e != "*"]:
+                        work_.append(rv_["place"].local)
+            dims_const = all(a_.kind == "const" for a_ in t.args[:2])
+            if whole and not dims_const:
+                ck.ob("ROLE", "matrix/data-length", False, "Matrix::new receives the whole fixed-size array `%s` (%d values) as its data while rows * cols depends on the sets: only a sub-slice of rows * cols values is the matrix" % (whole[0][0], whole[0][1]), where=gs.where(whole[0][2]))
         # inner similarity call and loop nesting
         sims = [(bi, t) for bi, t in gs.calls() if t.callee.deff == "similarity::Similarity::calculate" or (t.callee.trait == "similarity::Similarity" and t.callee.method == "calculate")]
         if not sims:
@@ -253,6 +295,12 @@ def run(ck, prog, ctx):
                 si = loop_source(encl[0][1], inner, set())
                 so = loop_source(encl[1][1], outer, inner)
                 ok = so == {2} and si == {3}
+                if not ok and so == {2} and 3 in si:
+                    # the inner iterator pairs the terms of b with something else (`b_terms.iter().zip(slots)`): it still walks b inside a
+                    ok = True
+                elif not ok and not (so == {3} or si == {2}) and (2 in so and 3 in si):
+                    ck.undecided("ROLE", "fill/nesting", "the loops over a and b draw on %s / %s: which one is the outer loop is not told apart" % (sorted(gs.local_name(p) for p in so), sorted(gs.local_name(p) for p in si)), where=gs.where(t.line))
+                    continue
                 ck.ob("ROLE", "fill/nesting", ok, "outer loop iterates %s, inner loop iterates %s%s" % (sorted(gs.local_name(p) for p in so), sorted(gs.local_name(p) for p in si), " (row-major for rows=|a|)" if ok else ": the fill order does not match rows=|a|, cols=|b|"), where=gs.where(t.line))
 
     mn = prog.body("matrix::Matrix::<'a, T>::new")
